@@ -39,12 +39,23 @@ def generate(seed, tier):
     B = model.gen_treebank(rng, k, nsent=rng.choice([1, 2, 4]), sid_pattern="consecutive")
     for i, s in enumerate(B):
         s["sid"] = len(A) + 1 + i
-    return {"A": A, "B": B, "fmt": fmt, "layout": rng.randrange(1 << 30),
+    emptypos = False
+    if fmt == "brackets" and rng.random() < 0.4:
+        emptypos = True
+        for s_ in A + B:
+            for t in s_["tokens"]:
+                if rng.random() < 0.3:
+                    t[1] = "EMPTY"
+    return {"A": A, "B": B, "fmt": fmt, "layout": rng.randrange(1 << 30), "emptypos": emptypos,
             "shuffle": rng.randrange(1 << 30), "io_seed": rng.randrange(1 << 30),
             "schedule": cm.gen_schedule(rng, 2, 3 * (len(A) + len(B)) + 6),
             "mode": rng.choice(["left", "rightd"]),
             "edit": rng.choice(["root_attach", "root_attach", "punctuation_root",
                                 "punctuation_delete"])}
+
+
+def SRCOPT(sc):
+    return ["brackets_emptypos"] if sc.get("emptypos") else []
 
 
 def histograms(tb):
@@ -108,7 +119,8 @@ def execute(sc, sim):
     files = {}
     for name, tb in (("A", A), ("B", B), ("AB", AB)):
         files["/sim/w/%s%s" % (name, EXT[fmt])] = cm.render_file(
-            {"tb": tb, "codec": CODEC[fmt], "layout": sc["layout"], "enc": "utf-8"})
+            {"tb": tb, "codec": CODEC[fmt], "layout": sc["layout"], "enc": "utf-8",
+             "kw": {"emptypos": True} if sc.get("emptypos") else {}})
     # ---- CLI runs: the three tasks on one file in one simulated process (so a task runs after
     # other tasks), for half of the scenarios preceded by a run of a task on ANOTHER file in the
     # same process (K5: history must not leak into the report)
@@ -120,7 +132,7 @@ def execute(sc, sim):
             other = {"A": "B", "B": "AB", "AB": "A"}[name]
             ops.append(["cli", ["treeanalysis", "/sim/w/%s%s" % (other, EXT[fmt]),
                                 hist_rng.choice(["GapDegree", "PosTags", "SentenceCount"]),
-                                "--src-format", fmt, "--src-opts", "quiet"]])
+                                "--src-format", fmt, "--src-opts", "quiet"] + SRCOPT(sc)])
             st.fault("history")
             st.probe("task_after_same_task_on_other_file")
         npre = len(ops)
@@ -128,7 +140,7 @@ def execute(sc, sim):
         hist_rng.shuffle(tasks)
         for task in tasks:
             ops.append(["cli", ["treeanalysis", "/sim/w/%s%s" % (name, EXT[fmt]), task,
-                                "--src-format", fmt, "--src-opts", "quiet"]])
+                                "--src-format", fmt, "--src-opts", "quiet"] + SRCOPT(sc)])
         obs = sim.run({"files": files, "io_seed": sc["io_seed"],
                        "sessions": [{"id": "c", "ops": ops, "on_error": "continue"}]})
         st.add_obs(obs)
